@@ -308,7 +308,7 @@ def run(ctx):
     depth = 5 if ctx.quick else 7
     with open(os.path.join(ctx.rundir, "MC_HSTRP_run.cfg"), "w") as f:
         f.write(CFG.format(depth=depth))
-    res = core.run_tlc(ctx, "MC_HSTRP", "MC_HSTRP_run.cfg", timeout=1200)
+    res = core.run_tlc(ctx, "MC_HSTRP", "MC_HSTRP_run.cfg", timeout=3000, workers=1)
     if res.violated:
         ctx.note("design_counterexample", res.violated)
     edges = core.parse_printed_json(res, tag="EDGE")
